@@ -27,7 +27,7 @@ def shards(tier):
 def floors(tier):
     return {"judged": 5000, "margin<0": 500, "margin=0": 500, "margin>0": 500, "strict_rejects": 500,
             "strict_accepts": 500, "table_switches": 1000, "capacity_cache_warm_before_switch": 500,
-            "q_only_element_atoms": 200, "charged_atoms": 500, "explicit_h_atoms": 500, "aromatic_judged": 50}
+            "q_only_element_atoms": 200, "charged_atoms": 500, "explicit_h_atoms": 500, "aromatic_judged": 50, "nonstrict_aromatic_table_sets": 1000}
 
 
 def run(ctx):
@@ -165,6 +165,28 @@ def run(ctx):
         if r2[0] in ("ok", "err") and (r2[0] == "err") != bool(viol2):
             ctx.finding("strict-verdict-stale-after-table-switch", dict(payload, table2=t2, violating_atoms=viol2),
                         "after switching tables strict=%s, independent count says %r" % (r2[0], viol2))
+    # non-strict encoding of aromatic inputs of every kind (hypervalent aromatic S / P included) under pairs of tables
+    from vmon.aromgen import substituted_system, ANCHORED, EXOTIC
+    extra = ["O=s1cccc1", "c1ccs(=O)cc1", "O=p1ccccc1", "c1ccp(=O)(C)cc1", "O=s1(=O)cccc1", "c1cc[se](=O)c1", "O=[n+]1ccccc1", "Cc1ccccc1"]
+    for i in range(150 if quick else 4000):
+        if i < len(extra):
+            s = extra[i]
+        else:
+            m = rng.choice([lambda: standard_system(rng)[0], lambda: substituted_system(rng, EXOTIC)[0],
+                            lambda: substituted_system(rng, ANCHORED)[0]])()
+            s = spell(m, rng)[0]
+        outs = []
+        for K in ("default", "octet_rule", "hypervalent", tablegen.random_table(rng, caps=[1, 2, 2, 3, 4, 6], q=rng.choice([1, 2, 8]))):
+            try:
+                sf.set_semantic_constraints(K)
+            except ValueError:
+                continue
+            outs.append(call_guard(lambda: sf.encoder(s, strict=False), expected=(sf.EncoderError,))[:2])
+        ctx.count("nonstrict_aromatic_table_sets")
+        ctx.case(("arom-nonstrict", s), True)
+        if len(set(map(repr, outs))) > 1:
+            ctx.finding("nonstrict-depends-on-table", {"smiles": s, "table": "default/octet_rule/hypervalent/random"},
+                        "results under different tables: %r" % (outs,))
     for k, v in MON.counts.items():
         ctx.count(k, v)
 
